@@ -181,6 +181,13 @@ def check_case(case, rec):
 
 
 def classify(v):
+    c = v.get("case") or {}
+    f = c.get("failing", c)
+    toks = f.get("toks") or []
+    if v["op"] == "quantile" and v["clause"] == "values" and any(t in ("inf", "-inf") for t in toks):
+        # NumPy's np.quantile interpolates with b - (b - a) * (1 - t) for t >= 0.5, which is inf - inf = NaN
+        # when an infinity is involved; Numba's np.quantile returns the infinity
+        return "infinite-value-in-group"
     return None
 
 
